@@ -540,7 +540,9 @@ def run(ctx):
         slow, the run has produced no value and no scan violation: it says nothing about C15 (safety: who is inspected while
         running; progress is C16's property, whose check judges hang-running with its own, longer bounds)"""
         m = re.search(r"stops=(\d+)/(\d+)", kv.get("raw", ""))
-        return kv.get("outcome") == "hang-running" and int(kv.get("scanviol", "0") or 0) == 0 and bool(m) and m.group(1) == m.group(2)
+        # (`hang-blocked` = the watchdog saw no dispatch for a while: with delay injection and a loaded machine the 4000 stop
+        # rounds of an assigner take longer than any fixed bound; with every stop request completed nobody is being waited for)
+        return kv.get("outcome") in ("hang-running", "hang-blocked") and int(kv.get("scanviol", "0") or 0) == 0 and bool(m) and m.group(1) == m.group(2)
 
     res = C.pool_map(prog_job, jobs, workers=max(2, C.NCPU // 4))
     for (n, e, p, cl, jit, jitter), kv in res:
